@@ -27,9 +27,14 @@ exact/approximate solution bookkeeping, path extraction), `RRT::clear` (drops th
 new generator), `RRT::setup` (`SelfConfig::configurePlannerRange`), `StateSpace::setup` (`longestValidSegment_`,
 two generators for the random default projection when the dimension exceeds 2).
 
-Abstractions: the planning loop is bounded by `fuel` iterations (`none` when exhausted, never a made-up result; every
-iteration makes at least one evaluation, so `fuel > budget` always suffices under the counting condition); 32/64-bit
-counters do not wrap; `Float → unsigned` casts are taken in range.
+Spaces: `RealVectorStateSpace(dim)` and `SE2StateSpace` (compound of a 2-D real vector, weight 1, and `SO2StateSpace`, weight
+0.5: `CompoundStateSpace::distance / interpolate / satisfiesBounds / validSegmentCount / getMaximumExtent`,
+`SO2StateSpace::distance / interpolate` with the seam at ±pi, `CompoundStateSampler` = three generators created in the order
+own / real-vector part / SO(2) part, `SO2StateSampler::sampleUniform`).
+
+Abstractions: the planning loop is bounded by `fuel` iterations and the bisection queue by `nd` steps — limits that are
+never reached (`Props.C20.rrt_never_out_of_fuel`: a run ends without a result only if a seed draw's own rejection loop gave up,
+ghost flag `EnvSt.allocFailed`); 32/64-bit counters do not wrap; `Float → unsigned` casts are taken in range.
 -/
 namespace OmplModel.RngPlan
 open OmplModel.Rng OmplModel.Rng.Oracle
